@@ -22,6 +22,7 @@ type Gen struct {
 	prog            *ssa.Program
 	pkgs            map[string]*packages.Package
 	spkgs           map[string]*ssa.Package
+	immTypes        []*types.Named
 	db              *SpecDB
 	ghostSorts      map[string]string
 	nonNilGlob      map[*ssa.Global]int
@@ -836,4 +837,158 @@ func (g *Gen) mayAlloc(fn *ssa.Function) map[string]bool {
 	}
 	visit(fn, 0)
 	return res
+}
+
+// immutableTypes resolves the "immutable" declarations to named struct types.
+func (g *Gen) immutableTypes() []*types.Named {
+	if g.immTypes != nil {
+		return g.immTypes
+	}
+	g.immTypes = []*types.Named{}
+	for _, im := range g.db.Immutables {
+		if pk := g.typesPkg(im.Pkg); pk != nil {
+			if t := g.parseTypeExpr(im.Type, pk); t != nil {
+				if nt, ok := types.Unalias(t).(*types.Named); ok {
+					g.immTypes = append(g.immTypes, nt)
+				}
+			}
+		}
+	}
+	return g.immTypes
+}
+
+func (g *Gen) isImmutable(t types.Type) bool {
+	for _, nt := range g.immutableTypes() {
+		if types.Identical(types.Unalias(t), nt) {
+			return true
+		}
+	}
+	return false
+}
+
+// checkImmutable scans every function of the repository (outside the excepted packages): the address
+// of (a part of) an immutable struct reached through a pointer may only be used to load from.
+func (g *Gen) checkImmutable() []string {
+	var errs []string
+	for _, im := range g.db.Immutables {
+		pk := g.typesPkg(im.Pkg)
+		if pk == nil {
+			continue
+		}
+		t := g.parseTypeExpr(im.Type, pk)
+		if t == nil {
+			errs = append(errs, "immutable: unknown type "+im.Type)
+			continue
+		}
+		// the struct itself and the structs embedded in it by value
+		imm := []types.Type{types.Unalias(t)}
+		if st, ok := t.Underlying().(*types.Struct); ok {
+			for i := 0; i < st.NumFields(); i++ {
+				if _, isSt := st.Field(i).Type().Underlying().(*types.Struct); isSt {
+					imm = append(imm, types.Unalias(st.Field(i).Type()))
+				}
+			}
+		}
+		isImm := func(x types.Type) bool {
+			for _, y := range imm {
+				if types.Identical(types.Unalias(x), y) {
+					return true
+				}
+			}
+			return false
+		}
+		var visit func(fn *ssa.Function)
+		seen := map[*ssa.Function]bool{}
+		visit = func(fn *ssa.Function) {
+			if fn == nil || seen[fn] || fn.Blocks == nil {
+				return
+			}
+			seen[fn] = true
+			for _, af := range fn.AnonFuncs {
+				visit(af)
+			}
+			for _, b := range fn.Blocks {
+				for _, ins := range b.Instrs {
+					fa, ok := ins.(*ssa.FieldAddr)
+					if !ok {
+						continue
+					}
+					pt, ok := fa.X.Type().Underlying().(*types.Pointer)
+					if !ok || !isImm(pt.Elem()) {
+						continue
+					}
+					if _, fresh := fa.X.(*ssa.Alloc); fresh {
+						continue // building a new object
+					}
+					var bad func(v ssa.Value, depth int) string
+					bad = func(v ssa.Value, depth int) string {
+						if v.Referrers() == nil || depth > 6 {
+							return ""
+						}
+						for _, r := range *v.Referrers() {
+							switch x := r.(type) {
+							case *ssa.UnOp, *ssa.DebugRef:
+							case *ssa.FieldAddr:
+								if m := bad(x, depth+1); m != "" {
+									return m
+								}
+							case *ssa.IndexAddr:
+								if m := bad(x, depth+1); m != "" {
+									return m
+								}
+							case *ssa.Call:
+								// handing the address of an embedded part to a function of this module is fine:
+								// that function is scanned too
+								cc := x.Common()
+								if callee := cc.StaticCallee(); callee != nil && cc.Value != v && g.inRepo(callee) {
+									if ptv, ok := v.Type().Underlying().(*types.Pointer); ok && isImm(ptv.Elem()) {
+										continue
+									}
+								}
+								return fmt.Sprintf("%s: the address of a field of %s is passed to a call", g.fset.Position(r.Pos()), im.Type)
+							case *ssa.Slice:
+								// slicing an array field: reads only if the slice is just passed on; treated as a use
+								return fmt.Sprintf("%s: a field of %s is sliced (may be written through the slice)", g.fset.Position(r.Pos()), im.Type)
+							default:
+								return fmt.Sprintf("%s: a field of %s is written or its address escapes (%T)", g.fset.Position(r.Pos()), im.Type, r)
+							}
+						}
+						return ""
+					}
+					if m := bad(fa, 0); m != "" {
+						errs = append(errs, m)
+					}
+				}
+			}
+		}
+		for path, sp := range g.spkgs {
+			if !strings.HasPrefix(path, modulePath) {
+				continue
+			}
+			skip := false
+			for _, e := range im.Except {
+				if strings.Contains(path, e) {
+					skip = true
+				}
+			}
+			if skip {
+				continue
+			}
+			for _, m := range sp.Members {
+				switch x := m.(type) {
+				case *ssa.Function:
+					visit(x)
+				case *ssa.Type:
+					for _, tt := range []types.Type{x.Type(), types.NewPointer(x.Type())} {
+						ms := sp.Prog.MethodSets.MethodSet(tt)
+						for i := 0; i < ms.Len(); i++ {
+							visit(sp.Prog.MethodValue(ms.At(i)))
+						}
+					}
+				}
+			}
+		}
+	}
+	sort.Strings(errs)
+	return errs
 }
